@@ -196,12 +196,12 @@ Print Assumptions C03_groupby_partition.
 
 (* what the GroupBy op of a history returns is that partition (or AttributeError when the key
    raises on a member), and it changes nothing *)
-Theorem C03_groupby_step : forall st s k m,
+Theorem C03_groupby_step : forall st s k rt m,
   members st s = Some m ->
-  step st (GroupBy s k) =
+  step st (GroupBy s k rt) =
   match all_some (eval_key (st_tbl st) k) m with
   | Some _ => let g := groupby_members (key_or0 (st_tbl st) k) m in
-              (st, ROk (zlen g :: flat_map (fun e => fst e :: zlen (snd e) :: snd e) g))
+              (st, ROk (b2z rt :: zlen g :: flat_map (fun e => fst e :: zlen (snd e) :: snd e) g))
   | None => (st, RErr E_ATTR)
   end.
 Proof. exact step_groupby. Qed.
@@ -576,6 +576,179 @@ Proof.
   - split; [vm_compute; reflexivity|]. intros v. vm_compute. discriminate.
 Qed.
 
+(* ================================================================== round 3: breadth
+   ---- set algebra inherited from collections.abc.Set / MutableSet (membership and ORDER as the code
+   produces them; the result of the copying forms is built without the generator: that is C01's matter) *)
+Theorem C03_setop_step : forall st s1 s2 o inplace d m1 m2,
+  members st s1 = Some m1 -> members st s2 = Some m2 -> valid_slot d = true ->
+  step st (SetOp s1 s2 o inplace d) =
+  (store st (if inplace then s1 else d) (set_binop o inplace m1 m2), ROk [b2z inplace]).
+Proof. exact step_setop. Qed.
+Print Assumptions C03_setop_step.
+
+(* |, &, -, ^ and |=, &=, -=, ^= are union, intersection, difference, symmetric difference *)
+Theorem C03_setop_membership : forall o inplace m1 m2 a,
+  NoDup m1 -> NoDup m2 ->
+  (In a (set_binop o inplace m1 m2) <->
+   match o with
+   | SUnion => In a m1 \/ In a m2
+   | SInter => In a m1 /\ In a m2
+   | SDiff => In a m1 /\ ~ In a m2
+   | SXor => (In a m1 /\ ~ In a m2) \/ (~ In a m1 /\ In a m2)
+   end).
+Proof. exact set_binop_In. Qed.
+Print Assumptions C03_setop_membership.
+
+Theorem C03_setop_nodup : forall o inplace m1 m2,
+  NoDup m1 -> NoDup m2 -> NoDup (set_binop o inplace m1 m2).
+Proof. exact set_binop_NoDup. Qed.
+Print Assumptions C03_setop_nodup.
+
+(* order: a | b and a |= b keep a's order and append b's new members in b's order; a ^ b is a's own members
+   then b's own; a - b and a & b (in place) keep a's order - but the copying a & b is in B's order
+   (`value for value in other if value in self`), by definition of set_binop *)
+Theorem C03_setop_union_order : forall m1 m2, NoDup m1 -> NoDup m2 ->
+  set_binop SUnion false m1 m2 = m1 ++ filter (notin m1) m2 /\
+  set_binop SUnion true m1 m2 = m1 ++ filter (notin m1) m2.
+Proof. exact union_order. Qed.
+Print Assumptions C03_setop_union_order.
+
+Theorem C03_setop_xor_order : forall m1 m2, NoDup m1 -> NoDup m2 ->
+  set_binop SXor false m1 m2 = filter (notin m2) m1 ++ filter (notin m1) m2.
+Proof. exact xor_order. Qed.
+Print Assumptions C03_setop_xor_order.
+
+(* ==, <=, isdisjoint are the set relations (== ignores the order) *)
+Theorem C03_setcmp : forall st s1 s2 c m1 m2,
+  members st s1 = Some m1 -> members st s2 = Some m2 ->
+  step st (SetCmp s1 s2 c) = (st, ROk [b2z (set_cmp c m1 m2)]).
+Proof. exact step_setcmp. Qed.
+Print Assumptions C03_setcmp.
+
+Theorem C03_setcmp_spec : forall c m1 m2, NoDup m1 -> NoDup m2 ->
+  (set_cmp c m1 m2 = true <->
+   match c with
+   | CEq => forall a, In a m1 <-> In a m2
+   | CLe => incl m1 m2
+   | CDisjoint => forall a, In a m1 -> In a m2 -> False
+   end).
+Proof. exact set_cmp_spec. Qed.
+Print Assumptions C03_setcmp_spec.
+
+Example C03_setop_example :
+  set_binop SUnion false [3; 1; 2] [4; 1; 5] = [3; 1; 2; 4; 5] /\
+  set_binop SInter false [3; 1; 2] [2; 4; 3] = [2; 3] /\ set_binop SInter true [3; 1; 2] [2; 4; 3] = [3; 2] /\
+  set_binop SDiff false [3; 1; 2] [2; 4] = [3; 1] /\
+  set_binop SXor false [3; 1; 2] [2; 4] = [3; 1; 4] /\ set_binop SXor true [3; 1; 2] [4; 2] = [3; 1; 4] /\
+  set_cmp CEq [3; 1; 2] [1; 2; 3] = true /\ set_cmp CLe [3; 1] [1; 2; 3] = true /\ set_cmp CLe [3; 4] [1; 2; 3] = false /\
+  set_cmp CDisjoint [3; 1] [2; 4] = true /\ NoDup [3; 1; 2].
+Proof. vm_compute. repeat split; repeat constructor; simpl; intuition discriminate. Qed.
+
+(* ---- GroupBy.map / do with method names and callables; result_type "list" vs "agentset" *)
+Theorem C03_groupby_map : forall st s k rt gm m ks,
+  members st s = Some m -> all_some (eval_key (st_tbl st) k) m = Some ks ->
+  let g := groupby_members (key_or0 (st_tbl st) k) m in
+  step st (GroupMap s k rt gm) =
+  match group_map (st_tbl st) rt gm g with Some r => (st, ROk r) | None => (st, RErr E_ATTR) end.
+Proof. exact step_group_map. Qed.
+Print Assumptions C03_groupby_map.
+
+(* one entry per group in group order; it fails exactly when the method fails on some group *)
+Theorem C03_groupby_map_values : forall t rt gm g,
+  (forall r, group_map t rt gm g = Some r ->
+     r = flat_map (fun e => fst e :: match gm_apply t rt gm (snd e) with Some vs => vs | None => [] end) g) /\
+  (group_map t rt gm g = None <-> exists e, In e g /\ gm_apply t rt gm (snd e) = None).
+Proof. exact group_map_values. Qed.
+Print Assumptions C03_groupby_map_values.
+
+(* len works on both result types; a method only AgentSet has ("get") on result_type="list" is an
+   AttributeError as soon as there is one group *)
+Theorem C03_groupby_map_len : forall t rt b g,
+  group_map t rt (GMLen b) g = Some (flat_map (fun e => [fst e; zlen (snd e)]) g).
+Proof. exact group_map_len. Qed.
+Print Assumptions C03_groupby_map_len.
+
+Theorem C03_groupby_map_method_on_lists : forall t n g, g <> [] -> group_map t false (GMGet n) g = None.
+Proof. exact group_map_get_on_lists. Qed.
+Print Assumptions C03_groupby_map_method_on_lists.
+
+(* do: a callable works on both result types and so does "set" on agentsets: it is s.set(n, v);
+   "set" on lists raises before anything is written (unless there is no group at all) *)
+Theorem C03_groupby_do : forall st s k rt by_name n v m ks,
+  members st s = Some m -> all_some (eval_key (st_tbl st) k) m = Some ks ->
+  (by_name = false \/ rt = true \/ m = [] -> step st (GroupDo s k rt by_name n v) = step st (SetAttr s n v)) /\
+  (by_name = true -> rt = false -> m <> [] -> step st (GroupDo s k rt by_name n v) = (st, RErr E_ATTR)).
+Proof. exact step_group_do. Qed.
+Print Assumptions C03_groupby_do.
+
+Example C03_groupby_map_do_example :
+  snd (step ex_state (GroupMap 0 (KAttr 0) false (GMLen true))) = ROk [4; 2; -2; 1] /\
+  snd (step ex_state (GroupMap 0 (KAttr 0) true (GMGet 0))) = ROk [4; 2; 4; 4; -2; 1; -2] /\
+  snd (step ex_state (GroupMap 0 (KAttr 0) false (GMGet 0))) = RErr E_ATTR /\
+  snd (step ex_state (GroupMap 0 (KAttr 0) false (GMSumAttr 1))) = RErr E_ATTR /\
+  snd (step ex_state (GroupDo 0 (KAttr 0) false true 1 5)) = RErr E_ATTR /\
+  attr_of (st_tbl (fst (step ex_state (GroupDo 0 (KAttr 0) false false 1 5)))) 2 1 = Some 5 /\
+  snd (step ex_state (GroupBy 0 (KAttr 0) false)) = ROk [0; 2; 4; 2; 3; 1; -2; 1; 2].
+Proof. vm_compute. repeat split. Qed.
+
+(* ---- tuple sort keys: key = lambda a: (k1(a), k2(a)) compares lexicographically.  The result is a
+   permutation, sorted by the first component in the requested direction, the members sharing a first
+   component are sorted by the second, and members with the same pair keep their order (stable) *)
+Theorem C03_sort_tuple_keys : forall t k1 k2 asc m r,
+  sort2_members t k1 k2 asc m = Some r ->
+  let f1 := key_or0 t k1 in let f2 := key_or0 t k2 in
+  Permutation m r /\ key_sorted asc f1 r /\
+  (forall v, key_sorted asc f2 (filter (fun a => f1 a =? v) r)) /\
+  (forall v w, filter (fun a => f2 a =? w) (filter (fun a => f1 a =? v) r) =
+               filter (fun a => f2 a =? w) (filter (fun a => f1 a =? v) m)).
+Proof. exact sort2_spec. Qed.
+Print Assumptions C03_sort_tuple_keys.
+
+Theorem C03_sort_tuple_keys_error_iff : forall t k1 k2 asc m,
+  sort2_members t k1 k2 asc m = None <->
+  exists a, In a m /\ (eval_key t k1 a = None \/ eval_key t k2 a = None).
+Proof. exact sort2_none. Qed.
+Print Assumptions C03_sort_tuple_keys_error_iff.
+
+Example C03_sort_tuple_example :
+  let t := [(1, {| a_cls := 0; a_attrs := [(0, 1); (1, 5)] |}); (2, {| a_cls := 0; a_attrs := [(0, 0); (1, 7)] |});
+            (3, {| a_cls := 0; a_attrs := [(0, 1); (1, 3)] |}); (4, {| a_cls := 0; a_attrs := [(0, 0); (1, 7)] |});
+            (5, {| a_cls := 0; a_attrs := [(0, 1)] |})] in
+  sort2_members t (KAttr 0) (KAttr 1) true [1; 2; 3; 4] = Some [2; 4; 3; 1] /\
+  sort2_members t (KAttr 0) (KAttr 1) false [1; 2; 3; 4] = Some [1; 3; 2; 4] /\
+  sort2_members t (KAttr 0) (KAttr 1) true [1; 5] = None.
+Proof. vm_compute. repeat split. Qed.
+
+(* ---- the boundary of the quantifier: what select does with at_most values the statement excludes *)
+(* a float above 1.0 is not converted but used as a count: the first ceil(f) matches *)
+Theorem C03_boundary_float_above_one : forall len k j,
+  0 <= j -> 2 ^ j < k ->
+  exists n, limit (AFrac k j) len = Some n /\ (n - 1) * 2 ^ j < k <= n * 2 ^ j /\ 2 <= n.
+Proof. exact limit_frac_above_one. Qed.
+Print Assumptions C03_boundary_float_above_one.
+
+(* a negative int or float (and 0, 0.0) gives a limit <= 0 ... *)
+Theorem C03_boundary_negative_limit : forall am len,
+  0 <= len ->
+  match am with AInt k => k < 0 | AFrac k j => k < 0 | AInf => False end ->
+  exists n, limit am len = Some n /\ n <= 0.
+Proof. exact limit_negative. Qed.
+Print Assumptions C03_boundary_negative_limit.
+
+(* ... and with a limit <= 0 select returns the empty set without ever calling the filter *)
+Theorem C03_boundary_nonpositive_selects_nobody : forall t p am ty m n,
+  limit am (zlen m) = Some n -> n <= 0 -> select_members t p am ty m = Some [].
+Proof. exact select_nonpositive_limit. Qed.
+Print Assumptions C03_boundary_nonpositive_selects_nobody.
+
+Example C03_boundary_example :
+  let t := st_tbl ex_state in
+  select_members t None (AFrac 5 1) None [3; 1; 2; 4] = Some [3; 1; 2] /\      (* at_most=2.5: three *)
+  select_members t None (AFrac 3 1) None [3; 1; 2; 4] = Some [3; 1] /\         (* at_most=1.5: two   *)
+  select_members t (Some (PAttrLe 1 0)) (AInt (-1)) None [3; 1; 2] = Some [] /\ (* filter would raise on 2 *)
+  select_members t (Some (PAttrLe 1 0)) (AFrac (-1) 1) None [3; 1; 2] = Some [].
+Proof. vm_compute. repeat split. Qed.
+
 (* ================================================================== code-level tie (T1)
    The tests, arithmetic and loop of AgentSet.select, the reverse= argument of sort, the in-place/copy
    branches of select / sort / shuffle and the branch structure of get are TRANSLATED from the current
@@ -584,7 +757,7 @@ Qed.
    gen_get_branch); what cannot be translated (dict / weak-reference statements) is compared verbatim
    (gen_select_skeleton_ok, gen_agentset_glue_ok).  The model functions ARE the translated code ... *)
 Theorem C03_source_select_is_model : forall t p am ty m,
-  am_wf am -> select_members t p am ty m = gen_select_members t p am ty m.
+  select_members t p am ty m = gen_select_members t p am ty m.
 Proof. exact select_bridge. Qed.
 Print Assumptions C03_source_select_is_model.
 
@@ -597,14 +770,13 @@ Print Assumptions C03_source_sort_is_model.
    translated fast-path test, at_most conversion, counting loop with its break and keep tests) returns the
    first floor-limited matches in order, *)
 Theorem C03_select_spec_of_source : forall t p am ty m r,
-  am_wf am -> gen_select_members t p am ty m = Some r ->
+  gen_select_members t p am ty m = Some r ->
   r = take_lim (limit am (zlen m)) (filter (keepb t p ty) m).
 Proof. exact select_spec_of_source. Qed.
 Print Assumptions C03_select_spec_of_source.
 
 (* raises exactly when the translated loop reaches a member on which the filter raises, *)
 Theorem C03_select_error_of_source : forall t p am ty m,
-  am_wf am ->
   (gen_select_members t p am ty m = None <->
    gen_select_fast (is_none p) (is_none ty) (am_inf am) = false /\
    exists pre a post, m = pre ++ a :: post /\ src_keep t p ty a = None /\
